@@ -203,10 +203,14 @@ Definition done_event (m : machine) (a : nat) (tag : nat) : event :=
 
 (* _check_and_fire_on_done: nearest done ancestor declaring onDone, else
    top-level completion *)
-Definition fire_on_done (eng : engine) (m : machine) (fin : nat) (s : st) : st :=
+(* _note_chained_event: the async engine counts an engine-raised event while it is processing another *)
+Definition note_chained (eng : engine) (pr : bool) (s : st) : st :=
+  match eng with Async => if pr then with_rd (S (s_raise_depth s)) s else s | Sync => s end.
+
+Definition fire_on_done (eng : engine) (pr : bool) (m : machine) (fin : nat) (s : st) : st :=
   match find (fun a => match n_ondone (nd m a) with Some _ => state_done m (s_cfg s) a | None => false end)
              (ancestors m fin) with
-  | Some a => send_self eng (done_event m a 0) s
+  | Some a => send_self eng (done_event m a 0) (note_chained eng pr s)
   | None =>
       match parent m fin with
       | Some (S _) => s
@@ -245,7 +249,7 @@ Definition enter_one (eng : engine) (pr : bool) (m : machine) (rec : list nat ->
   lift (fun s => logo (OEnter x) (with_cfg (cadd x (s_cfg s)) s)) ;;
   (fun s => exec_actions eng pr (n_entry (nd m x)) (entry_event eng m ev x) s) ;;
   (match eng with Async => sched m x | Sync => ret end) ;;
-  (if is_final m x then lift (fire_on_done eng m x) else ret) ;;
+  (if is_final m x then lift (fire_on_done eng pr m x) else ret) ;;
   match kind_of m x with
   | KCompound =>
       match n_initial (nd m x) with
